@@ -88,9 +88,9 @@ var plans = map[string]PropPlan{
 		Assumptions: append([]string{"AF_UNIX abstract-namespace listener (synchronous connect); 1-2 clients; EMFILE on accept injected as an environment deviation; Shutdown deadline on the virtual clock"}, schedAssume...),
 	},
 	"C14": {
-		Quick:     []Plan{{Scenario: "dial", PB: 2, DB: 1}},
-		Thorough:  []Plan{{Scenario: "dial", PB: 3, DB: 2}},
-		QuickSecs: 80, ThoroughSecs: 1200,
+		Quick:     []Plan{{Scenario: "dial", PB: 2, DB: 1}, {Scenario: "dial.seq", PB: 2, DB: 0}, {Scenario: "dial.retry", PB: 1, DB: 2}},
+		Thorough:  []Plan{{Scenario: "dial", PB: 3, DB: 2}, {Scenario: "dial.seq", PB: 3, DB: 1}, {Scenario: "dial.retry", PB: 2, DB: 3}},
+		QuickSecs: 90, ThoroughSecs: 1200,
 		Assumptions: append([]string{"loopback TCP (IPv4) and AF_UNIX abstract sockets; after a non-blocking connect the harness waits (bounded, real time) until the kernel has decided the loopback handshake so that replays are deterministic", "the dial timeout runs on the virtual clock: 'within its timeout plus scheduling slack' is read as 'the dial needs no event after its own timer fired'", "a typed-nil connection returned together with an error counts as no connection"}, schedAssume...),
 	},
 	"C15": {
